@@ -11,7 +11,7 @@
 (***************************************************************************)
 EXTENDS Integers, Sequences, FiniteSets
 
-AuthModes  == {"digest", "none", "basic", "reject", "digest_unknown"}
+AuthModes  == {"digest", "none", "basic", "reject", "digest_unknown", "digest_bare"}
 \* fault kinds at a request: HTTP status, connection reset before the headers, body cut short;
 \* fault kinds at redaction of file k: payload is not gzip, payload holds an over-long line, gzip stream cut (valid download of a
 \* damaged archive), <out>.<k> cannot be created
@@ -59,8 +59,15 @@ SendUnauth ==
   /\ pc = "send" /\ Log(cur, FALSE)
   /\ pc' = CASE auth = "none" -> "response"                          \* no challenge: the server answers at once
              [] auth \in {"basic", "digest_unknown"} -> "dlfail"     \* not a usable Digest challenge: the request fails, nothing more is sent
+             [] auth = "digest_bare" -> "crash"                       \* a directive without '=': the digest library's parser indexes past the end
              [] OTHER -> "challenged"
   /\ UNCHANGED <<envVars, cur, tmp, reg, outs, touched, retried, exit>>
+
+\* deviation named as an action: the process dies (Go panic, exit status 2) inside the transport, at the first request of the run - nothing
+\* has been downloaded yet, no clean-up runs, no credential material has been computed
+ParserCrash ==
+  /\ pc = "crash" /\ exit' = 2 /\ pc' = "done"
+  /\ UNCHANGED <<envVars, cur, reqLog, tmp, reg, outs, touched, retried>>
 
 \* ... then the digest response to the challenge (the only place where the private key is used)
 SendAuth ==
@@ -130,7 +137,7 @@ CleanupFail == /\ pc = "cleanupFail" /\ tmp' = tmp \ Range(reg) /\ exit' = 1 /\ 
 CleanupOk   == /\ pc = "cleanupOk" /\ tmp' = tmp \ Range(reg) /\ exit' = 0 /\ pc' = "done"
                /\ UNCHANGED <<envVars, cur, reqLog, reg, outs, touched, retried>>
 
-AtlasNext == KeyFail \/ SendUnauth \/ SendAuth \/ TransportRetry \/ Response \/ CopyBody \/ DownloadFail \/ Downloaded
+AtlasNext == KeyFail \/ SendUnauth \/ ParserCrash \/ SendAuth \/ TransportRetry \/ Response \/ CopyBody \/ DownloadFail \/ Downloaded
              \/ CreateOut \/ RedactFile \/ CleanupFail \/ CleanupOk
 AtlasSpec == AtlasInit /\ [][AtlasNext]_vars /\ WF_vars(AtlasNext)
 
@@ -162,7 +169,9 @@ NoChallengeNoCredentials ==
       /\ auth \in {"digest", "reject"}
       /\ \E j \in 1..(i - 1) : reqLog[j].t = reqLog[i].t /\ ~reqLog[j].authed
 \* a fault never turns into success
-FaultMeansFailure == Done /\ (~keyOk \/ (fault.kind # "none" /\ fault.kind # "reset")) => exit = 1
+FaultMeansFailure == Done /\ (~keyOk \/ (fault.kind # "none" /\ fault.kind # "reset")) => exit = (IF keyOk /\ auth = "digest_bare" THEN 2 ELSE 1)
+\* the parser crash can only happen before anything was downloaded
+CrashIsEarly == Done /\ exit = 2 => tmp = {} /\ reg = <<>> /\ outs = {} /\ Len(reqLog) = 1
 \* nothing is requested, let alone downloaded, before the key stage has succeeded
 KeyStageFirst == ~keyOk => reqLog = <<>> /\ tmp = {}
 Terminates == <>Done
